@@ -36,7 +36,7 @@ def shards(tier):
 
 
 def timeout(tier):
-    return 300 if tier == "quick" else 1500
+    return 900 if tier == "quick" else 5400
 
 
 def esc(s):
